@@ -379,6 +379,34 @@ func c20History(res *Result, d *Driver, rng *Rng, root string, ct *cgroup.Contro
 					bad("SetProcLimit failed", key, err.Error())
 				} else {
 					ledger[h.name][limitFile(h.name, "pids", "pids.max")] = "77"
+					// somebody else (another handle on the group, an administrator) changes the limit; the handle asserts its
+					// limit again: the limit written is the limit in force, every time
+					if rng.Chance(50) {
+						pf := limitFile(h.name, "pids", "pids.max")
+						if os.WriteFile(pf, []byte("55"), 0644) == nil {
+							err := h.cg.SetProcLimit(77)
+							b, _ := os.ReadFile(pf)
+							if err != nil || strings.TrimSpace(string(b)) != "77" {
+								bad("a limit written again after somebody else changed it is not the limit in force (C20: limits written are the limits in force)", key+"; pids.max set to 55 from outside; SetProcLimit(77) again", fmt.Sprintf("err=%v pids.max=%s", err, strings.TrimSpace(string(b))))
+							}
+						}
+					}
+				}
+			}
+			if ct.Memory && rng.Chance(50) {
+				f := "memory.limit_in_bytes"
+				if v2 {
+					f = "memory.max"
+				}
+				mf := limitFile(h.name, "memory", f)
+				if b0, err := os.ReadFile(mf); err == nil && strings.TrimSpace(string(b0)) == strconv.FormatUint(lim, 10) {
+					if os.WriteFile(mf, []byte(strconv.FormatUint(lim+8192, 10)), 0644) == nil {
+						err := h.cg.SetMemoryLimit(lim)
+						b, _ := os.ReadFile(mf)
+						if err != nil || strings.TrimSpace(string(b)) != strconv.FormatUint(lim, 10) {
+							bad("a limit written again after somebody else changed it is not the limit in force (C20: limits written are the limits in force)", key+"; memory limit raised by 8192 from outside; SetMemoryLimit again", fmt.Sprintf("err=%v limit=%s want %d", err, strings.TrimSpace(string(b)), lim))
+						}
+					}
 				}
 			}
 			// a cpuset narrower than the parent's (only where the kernel allows it: no sub-groups yet)
